@@ -140,15 +140,56 @@ def _build(it, scn):
     return g, verts, dims, spec
 
 
+class _Captured(Exception):
+    pass
+
+
+def first_linear_system(it, g, ffp):
+    """Run the real optimize(max_iter=1, fix_first_pose=ffp) up to its first linear solve and hand back what it is about to solve:
+    (H, rhs, chi2 stored by the assembly).  Independent of how optimize() is organised (helpers, context managers, ...)."""
+    from .interp import Unsupported
+    box = {}
+
+    def capture(H, rhs, *a, **k):
+        box["H"], box["rhs"], box["chi2"] = H, rhs, ga(g, "_chi2", None)
+        raise _Captured()
+    saved = dict(it.overrides), it.lossy_ok
+    it.overrides.update(spsolve=capture, time=lambda *a, **k: Poly.var("t#"), perf_counter=lambda *a, **k: Poly.var("t#"),
+                        monotonic=lambda *a, **k: Poly.var("t#"))
+    it.lossy_ok = True
+    try:
+        it.call_method(g, "optimize", [], dict(tol=Poly.var("tol"), max_iter=Poly.const(1), fix_first_pose=ffp, verbose=False))
+    except _Captured:
+        pass
+    finally:
+        it.overrides.clear()
+        it.overrides.update(saved[0])
+        it.lossy_ok = saved[1]
+    if "H" not in box:
+        raise ObFail("optimize(max_iter=1) returns without solving a linear system")
+    return box["H"], box["rhs"], box["chi2"]
+
+
 def _assemble_and_compare(it, g, verts, dims, spec, scn, label="", chi2_only=False):
+    from .interp import Unsupported
     pkg = it.pkg
-    run_prelude(it, g, scn.ffp)
     fixed = set(scn.fixed) | ({0} if scn.ffp else set())
+    try:
+        H, rhs, chi2 = first_linear_system(it, g, scn.ffp)
+        if not isinstance(rhs, Arr):
+            raise ObFail("%sthe right-hand side handed to the linear solve is not an array" % label)
+        b = rhs.map(lambda x: -x)
+        via = "optimize"
+    except Unsupported:
+        # optimize() itself could not be translated: interpret its pre-loop statements and call the assembly directly
+        run_prelude(it, g, scn.ffp)
+        it.call_method(g, "_calc_chi2_gradient_hessian", [])
+        b, H, chi2 = ga(g, "_gradient", None), ga(g, "_hessian", None), ga(g, "_chi2", None)
+        via = "prelude"
     for k, v in enumerate(verts):
         if bool(ga(v, "fixed", None)) != (k in fixed):
-            raise ObFail("%safter the fix_first_pose prelude vertex %d has fixed=%r, expected %r" % (label, k, ga(v, "fixed", None), k in fixed))
-    it.call_method(g, "_calc_chi2_gradient_hessian", [])
-    b, H, chi2 = ga(g, "_gradient", None), ga(g, "_hessian", None), ga(g, "_chi2", None)
+            raise ObFail("%swhen optimize(fix_first_pose=%r) assembles its first system vertex %d has fixed=%r, expected %r" % (
+                label, scn.ffp, k, ga(v, "fixed", None), k in fixed))
     offs = [sum(dims[:k]) for k in range(len(dims))]
     n = sum(dims)
     # ---- the checker's reference assembly
